@@ -346,8 +346,28 @@ func discSites() []Site {
 	}
 }
 
+const inj = "pkg/sidecar/injector.go"
+
+func injectSites() []Site {
+	return []Site{
+		{Name: "jobAssigns", File: inj, Func: "Injector.injectJobs", Ret: "assigned"},
+		{Name: "groupAssigns", File: inj, Func: "target2targetGroup", Ret: "assigned"},
+		{Name: "marshalCalls", File: inj, Func: "Injector.marshal", Ret: "calls:strings.,yaml.,fmt."},
+		{Name: "sectionSkipped", File: inj, Func: "Injector.marshal", Sel: "if:3:6", Params: "(key : Nat)", Ret: "Bool",
+			Leaves: map[string]string{`r.Key != "alerting"`: "(key != 0)", `r.Key != "remote_write"`: "(key != 1)", `r.Key != "remote_read"`: "(key != 2)"}},
+		{Name: "sectionMatches", File: inj, Func: "Injector.marshal", Sel: "if:4:6", Params: "(outKey rawKey : Nat)", Ret: "Bool",
+			Leaves: map[string]string{"out[k].Key == r.Key": "(outKey == rawKey)"}},
+		{Name: "paramJobName", File: inj, Sel: "const:paramJobName", Ret: "text"},
+		{Name: "paramHash", File: inj, Sel: "const:paramHash", Ret: "text"},
+		{Name: "paramScheme", File: inj, Sel: "const:paramScheme", Ret: "text"},
+		{Name: "selfMonitorOff", File: inj, Func: "Injector.injectSelfMonitor", Sel: "if:0:2", Params: "(enabled : Bool)", Ret: "Bool",
+			Leaves: map[string]string{"i.option.ShardMonitorEnable": "enabled"}},
+	}
+}
+
 func modules() []Module {
 	return []Module{
+		{Path: "Kvass/Gen/Inject.lean", NS: "Kvass.Gen.Inject", Imports: []string{"Kvass.Types"}, Global: map[string]string{}, Sites: injectSites()},
 		{Path: "Kvass/Gen/Disc.lean", NS: "Kvass.Gen.Disc", Imports: []string{"Kvass.Types"}, Global: map[string]string{}, Sites: discSites()},
 		{Path: "Kvass/Gen/Proxy.lean", NS: "Kvass.Gen.Proxy", Imports: []string{"Kvass.Types"}, Global: map[string]string{}, Sites: proxySites()},
 		{Path: "Kvass/Gen/Store.lean", NS: "Kvass.Gen.Store", Imports: []string{"Kvass.Types"}, Global: map[string]string{}, Sites: storeSites()},
